@@ -67,28 +67,29 @@ theorem annInd {P : AnnExpr → Prop}
     (opt : ∀ e, P e → P (.opt e))
     (union : ∀ es, (∀ e ∈ es, P e) → P (.union es))
     (bor : ∀ a b, P a → P b → P (.bor a b))
-    (str : ∀ e, P e → P (.str e)) : ∀ e, P e
+    (str : ∀ e, P e → P (.str e)) (name : ∀ n, P (.name n)) : ∀ e, P e
   | .cls c => cls c | .none => none | .anyT => anyT | .newtype n c => newtype n c | .bare c => bare c
   | .gen o c args => gen o c args fun e _ =>
-      annInd cls none anyT newtype bare gen tup tupE tupV unpack star lit typ ann final classVar opt union bor str e
+      annInd cls none anyT newtype bare gen tup tupE tupV unpack star lit typ ann final classVar opt union bor str name e
   | .tup o ms => tup o ms fun e _ =>
-      annInd cls none anyT newtype bare gen tup tupE tupV unpack star lit typ ann final classVar opt union bor str e
+      annInd cls none anyT newtype bare gen tup tupE tupV unpack star lit typ ann final classVar opt union bor str name e
   | .tupE o => tupE o
-  | .tupV o e => tupV o e (annInd cls none anyT newtype bare gen tup tupE tupV unpack star lit typ ann final classVar opt union bor str e)
-  | .unpack e => unpack e (annInd cls none anyT newtype bare gen tup tupE tupV unpack star lit typ ann final classVar opt union bor str e)
-  | .star e => star e (annInd cls none anyT newtype bare gen tup tupE tupV unpack star lit typ ann final classVar opt union bor str e)
+  | .tupV o e => tupV o e (annInd cls none anyT newtype bare gen tup tupE tupV unpack star lit typ ann final classVar opt union bor str name e)
+  | .unpack e => unpack e (annInd cls none anyT newtype bare gen tup tupE tupV unpack star lit typ ann final classVar opt union bor str name e)
+  | .star e => star e (annInd cls none anyT newtype bare gen tup tupE tupV unpack star lit typ ann final classVar opt union bor str name e)
   | .lit os => lit os
-  | .typ o e => typ o e (annInd cls none anyT newtype bare gen tup tupE tupV unpack star lit typ ann final classVar opt union bor str e)
-  | .ann e k => ann e k (annInd cls none anyT newtype bare gen tup tupE tupV unpack star lit typ ann final classVar opt union bor str e)
-  | .final e => final e (annInd cls none anyT newtype bare gen tup tupE tupV unpack star lit typ ann final classVar opt union bor str e)
-  | .classVar e => classVar e (annInd cls none anyT newtype bare gen tup tupE tupV unpack star lit typ ann final classVar opt union bor str e)
-  | .opt e => opt e (annInd cls none anyT newtype bare gen tup tupE tupV unpack star lit typ ann final classVar opt union bor str e)
+  | .typ o e => typ o e (annInd cls none anyT newtype bare gen tup tupE tupV unpack star lit typ ann final classVar opt union bor str name e)
+  | .ann e k => ann e k (annInd cls none anyT newtype bare gen tup tupE tupV unpack star lit typ ann final classVar opt union bor str name e)
+  | .final e => final e (annInd cls none anyT newtype bare gen tup tupE tupV unpack star lit typ ann final classVar opt union bor str name e)
+  | .classVar e => classVar e (annInd cls none anyT newtype bare gen tup tupE tupV unpack star lit typ ann final classVar opt union bor str name e)
+  | .opt e => opt e (annInd cls none anyT newtype bare gen tup tupE tupV unpack star lit typ ann final classVar opt union bor str name e)
   | .union es => union es fun e _ =>
-      annInd cls none anyT newtype bare gen tup tupE tupV unpack star lit typ ann final classVar opt union bor str e
+      annInd cls none anyT newtype bare gen tup tupE tupV unpack star lit typ ann final classVar opt union bor str name e
   | .bor a b => bor a b
-      (annInd cls none anyT newtype bare gen tup tupE tupV unpack star lit typ ann final classVar opt union bor str a)
-      (annInd cls none anyT newtype bare gen tup tupE tupV unpack star lit typ ann final classVar opt union bor str b)
-  | .str e => str e (annInd cls none anyT newtype bare gen tup tupE tupV unpack star lit typ ann final classVar opt union bor str e)
+      (annInd cls none anyT newtype bare gen tup tupE tupV unpack star lit typ ann final classVar opt union bor str name a)
+      (annInd cls none anyT newtype bare gen tup tupE tupV unpack star lit typ ann final classVar opt union bor str name b)
+  | .str e => str e (annInd cls none anyT newtype bare gen tup tupE tupV unpack star lit typ ann final classVar opt union bor str name e)
+  | .name n => name n
 termination_by e => sizeOf e
 
 /-! ### 1. the structural equality tests decide `=` -/
@@ -210,20 +211,22 @@ theorem squash_id (e : AnnExpr) : e.starU = false → squash e = e := by
   | star e ih => intro h; simp [AnnExpr.starU] at h
   | _ => intro h; simp_all [squash, AnnExpr.starU]
 
+variable {look : Lookup} {env : NameEnv}
+
 /-! ### 3. `allow_unpack` is irrelevant for the AST route on a supported expression that is not
 itself `Unpack[...]` -/
 
 theorem supp_mono (e : AnnExpr) (h : supp false e = true) : supp true e = true := by
   cases e <;> simp_all [supp]
 
-theorem astEval_au (e : AnnExpr) : supp false e = true → astEval true e = astEval false e := by
+theorem astEval_au (e : AnnExpr) : supp false e = true → astEval look true e = astEval look false e := by
   induction e using annInd with
   | str e ih => intro h; simp only [supp] at h; simp only [astEval]; exact ih h
   | unpack e ih => intro h; simp [supp] at h
   | _ => intro _; simp [astEval]
 
 theorem astEval_au' (e : AnnExpr) (h : supp false e = true) (au : Bool) :
-    astEval false e = astEval au e := by
+    astEval look false e = astEval look au e := by
   cases au
   · rfl
   · exact (astEval_au e h).symm
@@ -238,18 +241,18 @@ theorem annotateK_add (k k' : Nat) (t : Ty) : annotateK k (annotateK k' t) = ann
 /-! ### 4. the AST route against the runtime route -/
 
 /-- the two routes agree on `e` for either value of `allow_unpack` -/
-def Agree (e : AnnExpr) : Prop := ∀ au, astEval au e = rtEval au (tnorm (swapOpt e))
+def Agree (look : Lookup) (e : AnnExpr) : Prop := ∀ au, astEval look au e = rtEval look au (tnorm (swapOpt e))
 
-theorem agreeL (es : List AnnExpr) (h : ∀ e ∈ es, Agree e) :
-    astEvalL es = rtEvalL (tnormL (swapOptL es)) := by
+theorem agreeL (es : List AnnExpr) (h : ∀ e ∈ es, Agree look e) :
+    astEvalL look es = rtEvalL look (tnormL (swapOptL es)) := by
   induction es with
   | nil => simp [astEvalL, rtEvalL, tnormL, swapOptL]
   | cons e es ih =>
     simp only [astEvalL, rtEvalL, tnormL, swapOptL]
     rw [h e (by simp) false, ih fun x hx => h x (by simp [hx])]
 
-theorem agreeM (es : List AnnExpr) (h : ∀ e ∈ es, Agree e) :
-    astEvalM es = rtEvalM (tnormL (swapOptL es)) := by
+theorem agreeM (es : List AnnExpr) (h : ∀ e ∈ es, Agree look e) :
+    astEvalM look es = rtEvalM look (tnormL (swapOptL es)) := by
   induction es with
   | nil => simp [astEvalM, rtEvalM, tnormL, swapOptL]
   | cons e es ih =>
@@ -261,7 +264,7 @@ theorem suppL_iff (es : List AnnExpr) : suppL es = true ↔ ∀ e ∈ es, supp f
 theorem suppM_iff (es : List AnnExpr) : suppM es = true ↔ ∀ e ∈ es, supp true e = true := by
   induction es <;> simp_all [suppM]
 theorem R13L_false (es : List AnnExpr) :
-    R13_typingDedupL es = false ↔ ∀ e ∈ es, R13_typingDedup e = false := by
+    R13_typingDedupL look es = false ↔ ∀ e ∈ es, R13_typingDedup look e = false := by
   induction es <;> simp_all [R13_typingDedupL]
 theorem mem_swapOptL {es : List AnnExpr} {x : AnnExpr} (h : x ∈ swapOptL es) :
     ∃ e ∈ es, x = swapOpt e := by
@@ -273,8 +276,8 @@ theorem mem_swapOptL {es : List AnnExpr} {x : AnnExpr} (h : x ∈ swapOptL es) :
     · exact ⟨e, by simp, h⟩
     · obtain ⟨e', he', hx⟩ := ih h
       exact ⟨e', by simp [he'], hx⟩
-theorem R13L_swap (es : List AnnExpr) (h : R13_typingDedupL (swapOptL es) = false) :
-    ∀ e ∈ es, R13_typingDedup (swapOpt e) = false := by
+theorem R13L_swap (es : List AnnExpr) (h : R13_typingDedupL look (swapOptL es) = false) :
+    ∀ e ∈ es, R13_typingDedup look (swapOpt e) = false := by
   induction es with
   | nil => simp
   | cons e es ih =>
@@ -285,8 +288,8 @@ theorem R13L_swap (es : List AnnExpr) (h : R13_typingDedupL (swapOptL es) = fals
     · exact h.1
     · exact ih h.2 x hx
 
-theorem normOK {args : List AnnExpr} (h : normMatters args = false) (au : Bool) :
-    rtEval au (mkTUnion args) = rtUnionOf args := by
+theorem normOK {args : List AnnExpr} (h : normMatters look args = false) (au : Bool) :
+    rtEval look au (mkTUnion args) = rtUnionOf look args := by
   simp only [normMatters, Bool.not_eq_false', Bool.and_eq_true] at h
   cases au
   · exact optResSame_eq h.1
@@ -297,7 +300,7 @@ runtime route computes on the object `typing` builds for `e` with every `Optiona
 `Union[None, X]`. -/
 theorem agree_main (e : AnnExpr) :
     supp true e = true → e.starU = false →
-    R13_typingDedup (swapOpt e) = false → Agree e := by
+    R13_typingDedup look (swapOpt e) = false → Agree look e := by
   induction e using annInd with
   | cls c | none | anyT | newtype n c | bare c | tupE o =>
     intro _ _ _ au; simp [astEval, rtEval, swapOpt, tnorm]
@@ -355,7 +358,7 @@ theorem agree_main (e : AnnExpr) :
     simp only [AnnExpr.starU] at hst
     simp only [swapOpt, R13_typingDedup] at hr
     have ihe := ih (supp_mono e hs.2) hst hr
-    have hau := astEval_au' e hs.2 au
+    have hau := astEval_au' (look := look) e hs.2 au
     simp only [astEval, swapOpt, tnorm]
     split
     · rename_i c k' hX
@@ -363,7 +366,7 @@ theorem agree_main (e : AnnExpr) :
       rw [hX] at h1
       simp only [rtEval] at h1 ⊢
       rw [hau, h1]
-      cases rtEval au c <;> simp [annotateK_add]
+      cases rtEval look au c <;> simp [annotateK_add]
     · rename_i hX
       simp only [rtEval]
       rw [hau, ihe au]
@@ -377,7 +380,7 @@ theorem agree_main (e : AnnExpr) :
     rw [normOK hr.2 au]
     have hn : tnorm AnnExpr.none = AnnExpr.none := by simp [tnorm]
     simp only [rtUnionOf, tnormL, rtEvalL, hn, astEval, ihe]
-    cases rtEval false (tnorm (swapOpt e)) <;> simp [rtEval, ok]
+    cases rtEval look false (tnorm (swapOpt e)) <;> simp [rtEval, ok]
   | union es ih =>
     intro hs hst hr au
     simp only [supp, Bool.and_eq_true] at hs
@@ -398,17 +401,101 @@ theorem agree_main (e : AnnExpr) :
     simp only [swapOpt, tnorm]
     rw [normOK hr.2 au]
     simp only [rtUnionOf, rtEvalL, astEval, ha, hb]
-    cases rtEval false (tnorm (swapOpt a)) <;> cases rtEval false (tnorm (swapOpt b)) <;> simp
+    cases rtEval look false (tnorm (swapOpt a)) <;> cases rtEval look false (tnorm (swapOpt b)) <;> simp
   | str e ih =>
+    intro _ _ _ au
+    simp [astEval, rtEval, swapOpt, tnorm]
+  | name n =>
     intro _ _ _ au
     simp [astEval, rtEval, swapOpt, tnorm]
 
 /-! ### 5. def headers -/
 
-theorem vis_eq_rt (a : AnnExpr) (au : Bool) (h : a.starU = false) :
-    visEval au a = rtEval au (tnorm a) := by
-  cases a <;> simp only [visEval] <;> (try rw [squash_id _ h])
-  simp [tnorm, rtEval]
+/-- **name resolution**: the visitor's scope walk and the two `globals`-then-`builtins` lookups are
+the same function -/
+theorem lookups_eq (env : NameEnv) :
+    visLookup env = globalsLookup env ∧ defaultLookup env = globalsLookup env := by
+  refine ⟨funext fun n => ?_, rfl⟩
+  simp [visLookup, scopeLookup, globalsLookup]
+
+theorem resolveVL_congr (l1 l2 : Lookup) (es : List AnnExpr)
+    (ih : ∀ e ∈ es, (∀ n ∈ e.outerNames, l1 n = l2 n) → resolveV l1 e = resolveV l2 e)
+    (h : ∀ n ∈ AnnExpr.outerNamesL es, l1 n = l2 n) : resolveVL l1 es = resolveVL l2 es := by
+  induction es with
+  | nil => rfl
+  | cons e es ihl =>
+    simp only [AnnExpr.outerNamesL, List.mem_append] at h
+    simp only [resolveVL]
+    rw [ih e (by simp) fun n hn => h n (.inl hn),
+      ihl (fun x hx => ih x (by simp [hx])) fun n hn => h n (.inr hn)]
+
+/-- two lookups that agree on the names outside strings resolve the expression alike -/
+theorem resolveV_congr (l1 l2 : Lookup) (e : AnnExpr) :
+    (∀ n ∈ e.outerNames, l1 n = l2 n) → resolveV l1 e = resolveV l2 e := by
+  induction e using annInd with
+  | gen o c args ih | tup o args ih | union args ih =>
+    intro h
+    simp only [AnnExpr.outerNames] at h
+    simp only [resolveV]
+    rw [resolveVL_congr l1 l2 _ ih h]
+  | bor a b iha ihb =>
+    intro h
+    simp only [AnnExpr.outerNames, List.mem_append] at h
+    simp only [resolveV]
+    rw [iha fun n hn => h n (.inl hn), ihb fun n hn => h n (.inr hn)]
+  | name n =>
+    intro h
+    simp only [resolveV, h n (by simp [AnnExpr.outerNames])]
+  | _ => intro h; simp_all [resolveV, AnnExpr.outerNames]
+
+theorem astEvalL_resolveV (look : Lookup) (es : List AnnExpr)
+    (ih : ∀ e ∈ es, ∀ au, astEval look au (resolveV look e) = astEval look au e) :
+    astEvalL look (resolveVL look es) = astEvalL look es := by
+  induction es with
+  | nil => rfl
+  | cons e es ihl =>
+    simp only [resolveVL, astEvalL]
+    rw [ih e (by simp) false, ihl fun x hx => ih x (by simp [hx])]
+
+theorem astEvalM_resolveV (look : Lookup) (es : List AnnExpr)
+    (ih : ∀ e ∈ es, ∀ au, astEval look au (resolveV look e) = astEval look au e) :
+    astEvalM look (resolveVL look es) = astEvalM look es := by
+  induction es with
+  | nil => rfl
+  | cons e es ihl =>
+    simp only [resolveVL, astEvalM]
+    rw [ih e (by simp) true, ihl fun x hx => ih x (by simp [hx])]
+
+theorem starUL_resolveV (look : Lookup) (es : List AnnExpr)
+    (h : ∀ e ∈ es, (resolveV look e).starU = e.starU) :
+    AnnExpr.starUL (resolveVL look es) = AnnExpr.starUL es := by
+  induction es with
+  | nil => simp [resolveVL]
+  | cons e es ih =>
+    simp only [resolveVL, AnnExpr.starUL]
+    rw [h e (by simp), ih fun x hx => h x (by simp [hx])]
+
+/-- replacing names by the objects they are bound to introduces no starred member -/
+theorem starU_resolveV (look : Lookup) (e : AnnExpr) : (resolveV look e).starU = e.starU := by
+  induction e using annInd with
+  | gen o c args ih | tup o args ih | union args ih =>
+    simp only [resolveV, AnnExpr.starU]; exact starUL_resolveV look _ ih
+  | bor a b iha ihb => simp [resolveV, AnnExpr.starU, iha, ihb]
+  | name n =>
+    simp only [resolveV]
+    cases h : look n with
+    | none => rfl
+    | some t => cases t <;> simp [NameTarget.toAnn, AnnExpr.starU]
+  | _ => simp_all [resolveV, AnnExpr.starU]
+
+/-- an annotation in checked source without a starred member: a quoted one is the AST route, an
+unquoted one is the runtime route on the object the expression evaluates to (names resolved by the
+visitor) -/
+theorem vis_eq_rt (env : NameEnv) (a : AnnExpr) (au : Bool) (h : a.starU = false) :
+    visEval env au a = rtEval (visLookup env) au (tnorm (resolveV (visLookup env) a)) := by
+  have hs : (resolveV (visLookup env) a).starU = false := by rw [starU_resolveV]; exact h
+  cases a <;> simp only [visEval] <;> (try rw [squash_id _ hs])
+  simp [resolveV, tnorm, rtEval]
 
 theorem zipLongest_nil_right {α β : Type} (A : List α) :
     zipLongest A ([] : List β) = A.map (fun a => (some a, none)) := by
@@ -452,23 +539,23 @@ def nf (d : DefArgs) : List (Kind × PArg × Option Dflt) :=
   kwNF d.kwonly d.kwDefaults ++
   (match d.kwarg with | some a => [(Kind.varKw, a, none)] | none => [])
 
-def toIParam (future : Bool) (x : Kind × PArg × Option Dflt) : IParam :=
-  ⟨x.2.1.name, x.1, x.2.2, x.2.1.ann.map (annObject future)⟩
+def toIParam (env : NameEnv) (future : Bool) (x : Kind × PArg × Option Dflt) : IParam :=
+  ⟨x.2.1.name, x.1, x.2.2, x.2.1.ann.map (annObject env future)⟩
 
 theorem inspPositional_nf (future : Bool) (nPos nPosOnly : Nat) (ds : List Dflt) (as : List PArg) (i : Nat) :
-    inspPositional future nPos nPosOnly ds i as = (posNF nPosOnly nPos ds i as).map (toIParam future) := by
+    inspPositional env future nPos nPosOnly ds i as = (posNF nPosOnly nPos ds i as).map (toIParam env future) := by
   induction as generalizing i with
   | nil => simp [inspPositional, posNF]
   | cons a as ih => simp [inspPositional, posNF, toIParam, ih]
 
 theorem inspKwonly_nf (future : Bool) (as : List PArg) (ds : List (Option Dflt)) :
-    inspKwonly future as ds = (kwNF as ds).map (toIParam future) := by
+    inspKwonly env future as ds = (kwNF as ds).map (toIParam env future) := by
   induction as generalizing ds with
   | nil => simp [inspKwonly, kwNF]
   | cons a as ih => simp [inspKwonly, kwNF, toIParam, ih]
 
 theorem inspectOf_nf (d : DefArgs) :
-    (inspectOf d).params = (nf d).map (toIParam d.future) := by
+    (inspectOf env d).params = (nf d).map (toIParam env d.future) := by
   simp only [inspectOf, nf, List.map_append, inspPositional_nf, inspKwonly_nf]
   cases d.vararg <;> cases d.kwarg <;> simp [toIParam]
 
@@ -592,16 +679,16 @@ theorem defLoop_nf (eval : Bool → AnnExpr → Option Res) (m : Option Cls)
 
 theorem inspLoop_nf (m : Option Cls) (fut : Bool) (N : List (Kind × PArg × Option Dflt)) :
     ∀ (i : Nat) (acc : List SigParam),
-      inspLoop m i acc (N.map (toIParam fut)) = accLoop (fun i x => inspParam m i (toIParam fut x)) i acc N := by
+      inspLoop look m i acc (N.map (toIParam env fut)) = accLoop (fun i x => inspParam look m i (toIParam env fut x)) i acc N := by
   induction N with
   | nil => intro i acc; simp [inspLoop, accLoop]
   | cons x N ih =>
     intro i acc
     simp only [List.map_cons, inspLoop, accLoop]
-    cases inspParam m i (toIParam fut x) with
+    cases inspParam look m i (toIParam env fut x) with
     | none => rfl
     | some p =>
-      have hc : ((toIParam fut x).kind == Kind.posOrKw && isDunderName (toIParam fut x).name) =
+      have hc : ((toIParam env fut x).kind == Kind.posOrKw && isDunderName (toIParam env fut x).name) =
           (x.1 == Kind.posOrKw && isDunderName x.2.1.name) := rfl
       simp only [hc]
       by_cases h : (x.1 == Kind.posOrKw && isDunderName x.2.1.name) = true
@@ -610,12 +697,13 @@ theorem inspLoop_nf (m : Option Cls) (fut : Bool) (N : List (Kind × PArg × Opt
 
 /-- the in-source reading of an annotation and the runtime reading of the object `inspect` reports
 for it coincide -/
-def AnnOK (fut : Bool) (e : AnnExpr) : Prop := ∀ au, visEval au e = rtEval au (annObject fut e)
+def AnnOK (env : NameEnv) (fut : Bool) (e : AnnExpr) : Prop :=
+  ∀ au, visEval env au e = rtEval (globalsLookup env) au (annObject env fut e)
 
 /-- per-parameter side condition of the exact agreement: the annotation is read alike by both
 routes; an unannotated parameter has no default and is not `*args` / `**kwargs` -/
-def ParamOK (fut : Bool) (x : Kind × PArg × Option Dflt) : Prop :=
-  (∀ e, x.2.1.ann = some e → AnnOK fut e) ∧
+def ParamOK (env : NameEnv) (fut : Bool) (x : Kind × PArg × Option Dflt) : Prop :=
+  (∀ e, x.2.1.ann = some e → AnnOK env fut e) ∧
   (x.2.1.ann = none → x.2.2 = none ∧ x.1 ≠ Kind.varPos ∧ x.1 ≠ Kind.varKw)
 
 theorem dflt_core (df : Option Dflt) :
@@ -625,16 +713,16 @@ theorem dflt_core (df : Option Dflt) :
   | none => rfl
   | some x => cases x <;> rfl
 
-theorem param_core (fut : Bool) (i : Nat) (x : Kind × PArg × Option Dflt) (h : ParamOK fut x) :
-    (defParam visEval none i x.1 x.2.1 (x.2.2.map visitDefault)).map SigParam.core =
-      (inspParam none i (toIParam fut x)).map SigParam.core := by
+theorem param_core (fut : Bool) (i : Nat) (x : Kind × PArg × Option Dflt) (h : ParamOK env fut x) :
+    (defParam (visEval env) none i x.1 x.2.1 (x.2.2.map visitDefault)).map SigParam.core =
+      (inspParam (globalsLookup env) none i (toIParam env fut x)).map SigParam.core := by
   obtain ⟨k, a, df⟩ := x
   obtain ⟨h1, h2⟩ := h
   simp only at h1 h2
   cases ha : a.ann with
   | some e =>
     simp only [defParam, inspParam, toIParam, ha, Option.map_some, h1 e ha (allowUnpackK k)]
-    cases rtEval (allowUnpackK k) (annObject fut e) with
+    cases rtEval (globalsLookup env) (allowUnpackK k) (annObject env fut e) with
     | none => simp
     | some r =>
       simp [SigParam.core]
@@ -695,30 +783,31 @@ theorem nf_args (d : DefArgs) : (nf d).map (·.2.1) = d.allArgs := by
 annotation of the header is read alike by the two routes -/
 theorem params_agree_core (d : DefArgs) (hwf : d.WF = true) (hm : d.methodOf = none)
     (hR : R13_unannotated d = false)
-    (hann : ∀ a ∈ d.allArgs, ∀ e, a.ann = some e → AnnOK d.future e)
-    (hret : ∀ e, d.returns = some e → AnnOK d.future e) :
-    (fromDef d).map SigOut.core = (fromRuntime d).map SigOut.core := by
-  have hnf := inspectOf_nf d
-  have hok : ∀ x ∈ nf d, ParamOK d.future x := by
+    (hann : ∀ a ∈ d.allArgs, ∀ e, a.ann = some e → AnnOK env d.future e)
+    (hret : ∀ e, d.returns = some e → AnnOK env d.future e) :
+    (fromDef env d).map SigOut.core = (fromRuntime env d).map SigOut.core := by
+  have hnf := inspectOf_nf (env := env) d
+  have hok : ∀ x ∈ nf d, ParamOK env d.future x := by
     intro x hx
     have hmem : x.2.1 ∈ d.allArgs := by
       rw [← nf_args]; exact List.mem_map_of_mem hx
     refine ⟨fun e he => hann _ hmem e he, fun hn => ?_⟩
-    simp only [R13_unannotated, hnf, List.any_map, List.any_eq_false] at hR
+    have hnf0 := inspectOf_nf (env := default) d
+    simp only [R13_unannotated, hnf0, List.any_map, List.any_eq_false] at hR
     have := hR x hx
     simp only [Function.comp, toIParam, hn, Option.map_none, Option.isNone_none, Bool.true_and,
       Bool.or_eq_true, not_or] at this
     obtain ⟨⟨h1, h2⟩, h3⟩ := this
     refine ⟨by cases hx2 : x.2.2 <;> simp_all, by intro hk; simp [hk] at h2, by intro hk; simp [hk] at h3⟩
   have hloop := accLoop_core
-    (fun i x => defParam visEval none i x.1 x.2.1 (x.2.2.map visitDefault))
-    (fun i x => inspParam none i (toIParam d.future x)) (nf d)
+    (fun i x => defParam (visEval env) none i x.1 x.2.1 (x.2.2.map visitDefault))
+    (fun i x => inspParam (globalsLookup env) none i (toIParam env d.future x)) (nf d)
     (fun x hx i => param_core d.future i x (hok x hx)) 0 [] [] rfl
   unfold fromDef fromRuntime fromDefWith fromInspect
-  rw [defLoop_nf visEval d.methodOf (nf d) 0 [] _ (zip_nf d hwf), hnf, inspLoop_nf]
+  rw [defLoop_nf (visEval env) d.methodOf (nf d) 0 [] _ (zip_nf d hwf), hnf, inspLoop_nf]
   simp only [inspectOf, hm] at hloop ⊢
-  cases h1 : accLoop (fun i x => defParam visEval none i x.1 x.2.1 (x.2.2.map visitDefault)) 0 [] (nf d) <;>
-    cases h2 : accLoop (fun i x => inspParam none i (toIParam d.future x)) 0 [] (nf d) <;>
+  cases h1 : accLoop (fun i x => defParam (visEval env) none i x.1 x.2.1 (x.2.2.map visitDefault)) 0 [] (nf d) <;>
+    cases h2 : accLoop (fun i x => inspParam (globalsLookup env) none i (toIParam env d.future x)) 0 [] (nf d) <;>
     simp only [h1, h2, Option.map_none, Option.map_some] at hloop ⊢
   · simp at hloop
   · simp at hloop
@@ -728,13 +817,42 @@ theorem params_agree_core (d : DefArgs) (hwf : d.WF = true) (hm : d.methodOf = n
     | none => simp [SigOut.core, hpq]
     | some e =>
       simp only [Option.map_some, hret e hr false]
-      cases rtEval false (annObject d.future e) <;> simp [SigOut.core, hpq]
+      cases rtEval (globalsLookup env) false (annObject env d.future e) <;> simp [SigOut.core, hpq]
 
-/-- without `from __future__ import annotations`: no starred member suffices -/
-theorem annOK_now (e : AnnExpr) (h : e.starU = false) : AnnOK false e := by
+/-- reading the expression lazily (names looked up where they stand) or after replacing the names
+outside strings by the objects they are bound to is the same for the AST route -/
+theorem astEval_resolveV (look : Lookup) (e : AnnExpr) :
+    ∀ au, astEval look au (resolveV look e) = astEval look au e := by
+  induction e using annInd with
+  | gen o c args ih => intro au; simp only [resolveV, astEval, astEvalL_resolveV look _ ih]
+  | union args ih => intro au; simp only [resolveV, astEval, astEvalL_resolveV look _ ih]
+  | tup o args ih => intro au; simp only [resolveV, astEval, astEvalM_resolveV look _ ih]
+  | bor a b iha ihb => intro au; simp only [resolveV, astEval, iha false, ihb false]
+  | unpack e ih => intro au; simp only [resolveV, astEval, ih false, starU_resolveV]
+  | tupV o e ih | typ o e ih | ann e k ih | final e ih | classVar e ih | opt e ih =>
+    intro au; simp only [resolveV, astEval, ih false]
+  | name n =>
+    intro au
+    simp only [resolveV]
+    cases h : look n with
+    | none => rfl
+    | some t => cases t <;> simp [NameTarget.toAnn, astEval, h, NameTarget.ty]
+  | star e ih => intro au; simp [resolveV, astEval]
+  | _ => intro au; simp [resolveV]
+
+/-- without `from __future__ import annotations`: no starred member, and names not rebound after
+the def, suffice -/
+theorem annOK_now (env : NameEnv) (e : AnnExpr) (h : e.starU = false) (hn : stableNames env e = true) :
+    AnnOK env false e := by
   intro au
   simp only [annObject, Bool.false_eq_true, if_false]
-  exact vis_eq_rt e au h
+  rw [vis_eq_rt env e au h, (lookups_eq env).1]
+  have : resolveV (pyLookup env) e = resolveV (globalsLookup env) e := by
+    apply resolveV_congr
+    intro n hm
+    simp only [stableNames, List.all_eq_true, decide_eq_true_eq] at hn
+    rw [hn n hm, (lookups_eq env).1]
+  rw [this]
 
 theorem swapOpt_id (e : AnnExpr) : e.hasOpt = false → swapOpt e = e := by
   induction e using annInd with
@@ -759,18 +877,22 @@ theorem swapOpt_id (e : AnnExpr) : e.hasOpt = false → swapOpt e = e := by
   | _ => intro h; simp_all [swapOpt, AnnExpr.hasOpt]
 
 /-- under `from __future__ import annotations` the function object carries the *text* of the
-annotation, so the inspect route reads it by the AST route -/
-theorem annOK_future (e : AnnExpr) (hs : supp true e = true) (hst : e.starU = false)
-    (hr : R13_typingDedup e = false) (ho : e.hasOpt = false) : AnnOK true e := by
+annotation, so the inspect route reads it by the AST route with names looked up in `f.__globals__`;
+the conditions are on `r`, the expression with its names replaced by what the visitor binds them to -/
+theorem annOK_future (env : NameEnv) (e : AnnExpr)
+    (hs : supp true (resolveV (visLookup env) e) = true) (hst : e.starU = false)
+    (hr : R13_typingDedup (visLookup env) (resolveV (visLookup env) e) = false)
+    (ho : (resolveV (visLookup env) e).hasOpt = false) : AnnOK env true e := by
   intro au
   simp only [annObject, if_true, rtEval]
-  have hsw := swapOpt_id e ho
-  have := agree_main e hs hst (by rw [hsw]; exact hr) au
-  rw [hsw] at this
+  rw [← (lookups_eq env).1]
+  have hst' : (resolveV (visLookup env) e).starU = false := by rw [starU_resolveV]; exact hst
+  have hsw := swapOpt_id _ ho
+  have := agree_main (look := visLookup env) _ hs hst' (by rw [hsw]; exact hr) au
+  rw [hsw, astEval_resolveV] at this
   cases e <;> first
-    | (simp only [visEval]; rw [squash_id _ hst]; exact this.symm)
+    | (simp only [visEval]; rw [squash_id _ hst']; exact this.symm)
     | (simp only [visEval, astEval])
-
 
 theorem hasStarL_false (es : List AnnExpr) :
     AnnExpr.hasStarL es = false ↔ ∀ e ∈ es, e.hasStar = false := by
@@ -873,7 +995,7 @@ theorem optResSame_refl (x : Option Res) : optResSame x x = true := by
   cases x <;> simp [optResSame, Res.same, Ty.eqb_refl]
 
 theorem normMatters_plain {args : List AnnExpr} (h : AnnExpr.beq (mkTUnion args) (.union args) = true) :
-    normMatters args = false := by
+    normMatters look args = false := by
   have he := AnnExpr.beq_eq _ _ h
   simp only [normMatters, he, rtEval, rtUnionOf, optResSame_refl, Bool.and_self, Bool.not_true]
 
@@ -893,7 +1015,7 @@ theorem dedupObjsGo_nodup (acc os : List LitObj) (h : (acc ++ os).Nodup) : dedup
 theorem unite_single_known (o : Obj) : unite [.known o] = .known o := by
   simp [unite, flatten1, dedup, dictMem]
 
-theorem litMatters_nodup {os : List LitObj} (h : os.Nodup) : litMatters os = false := by
+theorem litMatters_nodup {os : List LitObj} (h : os.Nodup) : litMatters look os = false := by
   have hd : dedupObjs os = os := by
     simpa [dedupObjs] using dedupObjsGo_nodup [] os (by simpa using h)
   simp only [litMatters, hd, Bool.not_eq_false']
@@ -909,7 +1031,7 @@ theorem plainUnionsL_iff (es : List AnnExpr) :
   induction es <;> simp_all [plainUnionsL]
 
 /-- where `typing` has nothing to normalise, its normalisation cannot matter -/
-theorem plain_R13 (e : AnnExpr) : plainUnions e = true → R13_typingDedup e = false := by
+theorem plain_R13 (e : AnnExpr) : plainUnions e = true → R13_typingDedup look e = false := by
   induction e using annInd with
   | gen o c args ih | tup o args ih =>
     intro h
